@@ -1,10 +1,7 @@
-//! Correspondence / property-predicate harness: runs the real egglog crates on generated cases,
-//! evaluates the property's boolean predicate on what the implementation did, and writes the same
-//! cases as Coq terms (`cases_*.v`) so the Gallina model is evaluated on them by the kernel.
-//!
-//! usage: verif-harness <sub> --out <dir> [--seed N] [--tier quick|thorough] [--replay file]
-mod uf;
-mod util;
+//! Shared library of the correspondence / property-predicate harness binaries (src/bin/h_*.rs).
+//! Each binary: `h_<sub> --out <dir> [--seed N] [--tier quick|thorough] [--replay file] [extra..]`
+//! writes `<dir>/impl_report.json` (+ optional `cases_*.v` shards for kernel evaluation).
+pub mod util;
 
 pub struct Opts {
     pub out: std::path::PathBuf,
@@ -14,15 +11,10 @@ pub struct Opts {
     pub extra: Vec<String>,
 }
 
-fn main() {
+pub fn parse_opts() -> Opts {
     let args: Vec<String> = std::env::args().collect();
-    if args.len() < 2 {
-        eprintln!("usage: verif-harness <sub> --out <dir> [--seed N] [--tier quick|thorough]");
-        std::process::exit(2);
-    }
-    let sub = args[1].clone();
     let mut o = Opts { out: "out".into(), seed: 1, thorough: false, replay: None, extra: vec![] };
-    let mut i = 2;
+    let mut i = 1;
     while i < args.len() {
         match args[i].as_str() {
             "--out" => {
@@ -48,12 +40,5 @@ fn main() {
         }
     }
     std::fs::create_dir_all(&o.out).unwrap();
-    let code = match sub.as_str() {
-        "uf" => uf::run(&o),
-        _ => {
-            eprintln!("unknown subcommand {sub}");
-            2
-        }
-    };
-    std::process::exit(code);
+    o
 }
